@@ -18,7 +18,7 @@ RULE = ('(a) exhaustive lattice: every multiset of <= 3 reference and 1..3 query
         'pair; enumerated cases distinct by construction.')
 ASSUMPTIONS = ['query coordinates for the reverse strand are length-1-position with descending label numbers (the '
                'convention C02/C04 pin from the file side)']
-MINIMUMS = {'enum-calls': {'quick': 150000, 'thorough': 1000000}, 'random-calls': {'quick': 3000, 'thorough': 30000},
+MINIMUMS = {'enum-calls': {'quick': 150000, 'thorough': 800000}, 'random-calls': {'quick': 3000, 'thorough': 30000},
             'e2e-engine-calls': {'quick': 2000, 'thorough': 20000}, 'e2e-fragment-calls': {'quick': 50, 'thorough': 500}}
 
 
